@@ -599,6 +599,25 @@ pub struct ExParseFloatError(core::num::ParseFloatError);
 #[verifier::external_body]
 pub struct ExParseIntError(core::num::ParseIntError);
 
+// ------------------------------------------------------------------ core::fmt (only what the Display dispatcher touches)
+/// the precision of a format spec ({:.N}), as an uninterpreted attribute of the formatter
+pub uninterp spec fn fmt_precision(f: &core::fmt::Formatter<'_>) -> Option<usize>;
+pub assume_specification<'a> [core::fmt::Formatter::<'a>::precision] (f: &core::fmt::Formatter<'a>) -> (ret: Option<usize>)
+    ensures ret == fmt_precision(f);
+impl BigUint {
+    /// decimal digit string: ASCII, as many characters as the number has digits
+    #[verifier::external_body]
+    pub fn to_str_radix(&self, radix: u32) -> (ret: String)
+        requires radix == 10
+        ensures ret.is_ascii(), ret@.len() == ndigits(self@ as int), biguint_str(ret@) == self@
+    { unimplemented!() }
+}
+pub uninterp spec fn biguint_str(s: Seq<char>) -> nat;
+pub assume_specification [String::len] (s: &String) -> (ret: usize)
+    ensures s.is_ascii() ==> ret == s@.len();
+pub assume_specification<T> [Option::<T>::or] (a: Option<T>, b: Option<T>) -> (ret: Option<T>)
+    ensures ret == (if a.is_some() { a } else { b });
+
 // ------------------------------------------------------------------ IEEE-754 (axiom A3: to_bits / classify layout)
 #[verifier::external_type_specification]
 pub struct ExFpCategory(core::num::FpCategory);
